@@ -5,7 +5,7 @@ use crate::util::*;
 use serde_json::{json, Value};
 use std::collections::HashMap;
 use std::path::PathBuf;
-use taskchampion::server::verif::{arm_failpoint, set_randint, take_failpoint_trace, MemStore, VerifCloud};
+use taskchampion::server::verif::{arm_failpoint, set_failpoint_stops, set_randint, take_failpoint_trace, MemStore, VerifCloud};
 use taskchampion::server::{AddVersionResult, GetVersionResult, Server, ServerConfig};
 use taskchampion::Uuid;
 
@@ -175,6 +175,7 @@ pub fn gen_backend(seed: u64, id: usize, kind: &str, faults: bool, big: bool) ->
             next_payload += 1;
             let bytes = payload(pl, big);
             let mut fp_name = None;
+            let mut stop_mode = false;
             if fault_call == Some(k) {
                 // learn which failpoints this backend passes, then arm one of them
                 let names: Vec<&str> = match kind {
@@ -185,7 +186,11 @@ pub fn gen_backend(seed: u64, id: usize, kind: &str, faults: bool, big: bool) ->
                 if !names.is_empty() {
                     let nme = names[rng.below(names.len())];
                     arm_failpoint(Some((nme, 0)));
-                    fp_name = Some(nme.to_string());
+                    // the two fault kinds: the step returns an error, or the process stops there
+                    // (an unwinding panic: none of the backend's error handling runs)
+                    stop_mode = rng.chance(50);
+                    set_failpoint_stops(stop_mode);
+                    fp_name = Some(if stop_mode { format!("{nme} (process stops)") } else { nme.to_string() });
                 }
                 if kind == "http" {
                     use crate::httpsrv::Hostile;
@@ -211,6 +216,15 @@ pub fn gen_backend(seed: u64, id: usize, kind: &str, faults: bool, big: bool) ->
             }
             let r = std::panic::catch_unwind(std::panic::AssertUnwindSafe(|| block_on(be.handles[h].add_version(puuid, bytes.clone()))));
             arm_failpoint(None);
+            set_failpoint_stops(false);
+            // a stop at the failpoint is an interruption like an error, without the error handling
+            let r = match r {
+                Err(_) if stop_mode => {
+                    feat("stops", &mut feats);
+                    Ok(Err(taskchampion::Error::Server("the process stopped at the failpoint".into())))
+                }
+                other => other,
+            };
             let _ = take_failpoint_trace();
             match r {
                 Err(_) => problems.push(format!("{kind}: add_version panicked")),
